@@ -2,13 +2,22 @@
 # runs every seeded change against the check of its property (and the extra checks listed), writes seeded/RESULTS.txt
 cd /verif
 : > seeded/RESULTS.txt
-run() { ./seedrun.sh "$1" "$2" >> seeded/RESULTS.txt 2>&1; }
-for d in seeded/C*-m*; do
+run() { ./seedrun.sh "$1" "$2" 2>&1 | grep -v WARNING >> seeded/RESULTS.txt; }
+for d in seeded/C*-m* seeded/C*-w2m*; do
   id=$(basename $d); prop=${id%%-*}
   run $id $prop
 done
-# cross-checks: changes whose natural detector is another property's check
+# cross-checks: changes whose natural detector is (also) another property's check
 run C06-m1 C02
 run C18-m1 C17
+run C18-m1 C12
 run C03-m1 C18
 run C16-m2 C02
+run C16-w2m1 C12
+run C16-w2m2 C17
+run C16-w2m2 C12
+run C12-w2m1 C16
+run C12-w2m1 C02
+run C12-w2m3 C17
+run C02-w2m1 C16
+run C17-w2m1 C12
